@@ -78,10 +78,10 @@ def scrape_table():
     hdr = re.search(r"switch lang \{\s*case ParseErrorLanguageChinese:\s*sb\.WriteString\(" + STR + r"\)\s*"
                     r"case ParseErrorLanguageEnglish:\s*sb\.WriteString\(" + STR + r"\)\s*"
                     r"default:\s*sb\.WriteString\(" + STR + r"\)", body)
-    pos = re.search(r"case ParseErrorLanguageChinese:\s*sb\.WriteString\(fmt\.Sprintf\(" + STR + r", pos\.line, pos\.col, cn\)\)\s*"
-                    r"case ParseErrorLanguageEnglish:\s*sb\.WriteString\(fmt\.Sprintf\(" + STR + r", pos\.line, pos\.col, en\)\)\s*"
-                    r"default:\s*sb\.WriteString\(fmt\.Sprintf\(" + STR + r", pos\.line, pos\.col, cn\)\)\s*"
-                    r"sb\.WriteString\(fmt\.Sprintf\(" + STR + r", pos\.line, pos\.col, en\)\)", body)
+    pos = re.search(r"case ParseErrorLanguageChinese:\s*sb\.WriteString\(fmt\.Sprintf\(" + STR + r", pos\.line, pos\.col, \w+\)\)\s*"
+                    r"case ParseErrorLanguageEnglish:\s*sb\.WriteString\(fmt\.Sprintf\(" + STR + r", pos\.line, pos\.col, \w+\)\)\s*"
+                    r"default:\s*sb\.WriteString\(fmt\.Sprintf\(" + STR + r", pos\.line, pos\.col, \w+\)\)\s*"
+                    r"sb\.WriteString\(fmt\.Sprintf\(" + STR + r", pos\.line, pos\.col, \w+\)\)", body)
     if not hdr or not pos:
         raise Broken("table-scrape", "header / position switch of fmtErrText has an unexpected shape")
     h_cn, h_en, h_bi = (go_unquote(x) for x in hdr.groups())
@@ -372,6 +372,18 @@ class Checker:
             for s in self.cn_only:
                 if s in outside:
                     bad.append("English-only message contains the Chinese text %r" % s)
+        # script check of the fixed texts actually used (catches a table row written in the wrong language)
+        rowmap = dict((r[0], r) for r in t["rows"])
+        if lang == 1:
+            fixed = [t["h_cn"], t["w_cn"]] + [rowmap[k][1] for k, _ in (cn_key or [])[:1]]
+            for s in fixed:
+                if has_latin_word(s.replace(b"%c", b"")):
+                    bad.append("Chinese-only message uses the fixed text %r, which contains Latin words" % s)
+        if lang == 2:
+            fixed = [t["h_en"], t["w_en"]] + [rowmap[k][2] for k, _ in (en_key or [])[:1]]
+            for s in fixed:
+                if has_cjk(s):
+                    bad.append("English-only message uses the fixed text %r, which contains CJK text" % s)
         keys = cn_key or en_key or []
         key = None
         if cn_key and en_key:
@@ -534,10 +546,10 @@ def run(res, tier, seed):
     # known findings that reproduced
     if chk.known_hits[KEY_NL]:
         inp, d = chk.known_hits[KEY_NL][0]
-        res.known(f"key={KEY_NL} error position at a newline byte reported as next line col 0: input={json.dumps(show(inp))} {d} "
+        res.known(f"key={KEY_NL} error position at a newline byte reported as next line col 0: input={json.dumps(show(inp), ensure_ascii=False)} {d} "
                   f"({chk.stats['at_newline_known']} occurrences in this run)")
     if chk.known_hits[KEY_ACTION]:
-        lst = "; ".join(f"{json.dumps(show(m))} (input {json.dumps(show(v[0]))}, lang {v[1]})"
+        lst = "; ".join(f"{json.dumps(show(m), ensure_ascii=False)} (input {json.dumps(show(v[0]), ensure_ascii=False)}, lang {v[1]})"
                         for m, v in sorted(chk.known_hits[KEY_ACTION].items()))
         res.known(f"key={KEY_ACTION} grammar-action messages identical under every language setting: {lst}")
     if chk.known_hits[KEY_ENC]:
